@@ -124,6 +124,8 @@ pub struct Lab {
     pub cfg: LabCfg,
     sentinel_ctr: u64,
     pub born: Instant,
+    /// how long a step waits for the sentinel's reply before declaring the worker wedged
+    pub patience: Duration,
 }
 
 #[derive(Debug)]
@@ -173,7 +175,7 @@ impl Lab {
         let pk = key.public();
         let srv = srv_value(&pk);
         let socks = (0..nsocks).map(|_| client_socket()).collect();
-        Ok(Lab { server, events: mio::Events::with_capacity(1024), addr, pk, srv, socks, sentinel: client_socket(), queue, cfg, sentinel_ctr: 0, born: Instant::now() })
+        Ok(Lab { server, events: mio::Events::with_capacity(1024), addr, pk, srv, socks, sentinel: client_socket(), queue, cfg, sentinel_ctr: 0, born: Instant::now(), patience: Duration::from_secs(5) })
     }
 
     pub fn ensure_socks(&mut self, n: usize) {
@@ -218,7 +220,7 @@ impl Lab {
         }
         let (sproto, sreq) = self.make_sentinel();
         self.sentinel.send_to(&sreq, self.addr).map_err(|e| StepErr::Wedged(format!("sentinel send failed: {}", e)))?;
-        let deadline = Instant::now() + Duration::from_secs(5);
+        let deadline = Instant::now() + self.patience;
         let mut sentinel_replies = vec![];
         let mut calls = 0u32;
         loop {
@@ -233,7 +235,7 @@ impl Lab {
                 break;
             }
             if Instant::now() > deadline {
-                return Err(StepErr::Wedged(format!("sentinel not answered after {} process_events calls / 5 s", calls)));
+                return Err(StepErr::Wedged(format!("sentinel not answered after {} process_events calls / {:?}", calls, self.patience)));
             }
         }
         let t1 = SystemTime::now();
